@@ -13,6 +13,7 @@ import (
 	"go/parser"
 	"go/token"
 	"os"
+	slashpath "path"
 	"path/filepath"
 	"sort"
 	"strconv"
@@ -103,7 +104,63 @@ func hasChanOp(n ast.Node) bool {
 	return found
 }
 
-// Library instruments the root package of the scratch copy in dir.
+// libraryFiles lists, relative to dir and in a fixed order, the non-test Go files of the root
+// package and of every library package below it (internal/..., sub-packages): lazy state that
+// a change moves out of the root package is scheduled like the rest. Commands (package main,
+// the update-wordlist tool), the generated runtime, vendor and testdata trees and the verif_
+// hook files are left alone.
+func libraryFiles(dir string) ([]string, error) {
+	var out []string
+	var visit func(rel string) error
+	visit = func(rel string) error {
+		ents, err := os.ReadDir(filepath.Join(dir, filepath.FromSlash(rel)))
+		if err != nil {
+			return err
+		}
+		var files, subs []string
+		isMain := false
+		for _, ent := range ents {
+			name := ent.Name()
+			if ent.IsDir() {
+				if name == "zzsimrt" || name == "vendor" || name == "testdata" || strings.HasPrefix(name, ".") || strings.HasPrefix(name, "_") {
+					continue
+				}
+				subs = append(subs, name)
+				continue
+			}
+			if !strings.HasSuffix(name, ".go") || strings.HasSuffix(name, "_test.go") || strings.HasPrefix(name, "verif_") {
+				continue
+			}
+			full := filepath.Join(dir, filepath.FromSlash(rel), name)
+			if rel != "" {
+				f, err := parser.ParseFile(token.NewFileSet(), full, nil, parser.PackageClauseOnly)
+				if err != nil {
+					return fmt.Errorf("instrumenter cannot parse %s: %v", slashpath.Join(rel, name), err)
+				}
+				if f.Name.Name == "main" {
+					isMain = true
+				}
+			}
+			files = append(files, slashpath.Join(rel, name))
+		}
+		if !isMain {
+			out = append(out, files...)
+		}
+		for _, sd := range subs {
+			if err := visit(slashpath.Join(rel, sd)); err != nil {
+				return err
+			}
+		}
+		return nil
+	}
+	if err := visit(""); err != nil {
+		return nil, err
+	}
+	return out, nil
+}
+
+// Library instruments the root package of the scratch copy in dir and the library packages
+// below it.
 func Library(dir string) (*Report, error) {
 	mod, err := modulePath(dir)
 	if err != nil {
@@ -111,17 +168,13 @@ func Library(dir string) (*Report, error) {
 	}
 	rep := &Report{Module: mod}
 	rtPath := mod + "/zzsimrt"
-	ents, err := os.ReadDir(dir)
+	names, err := libraryFiles(dir)
 	if err != nil {
 		return nil, err
 	}
 	next := 1 // site 0 is reserved for the simulated device's Read
-	for _, ent := range ents {
-		name := ent.Name()
-		if ent.IsDir() || !strings.HasSuffix(name, ".go") || strings.HasSuffix(name, "_test.go") || strings.HasPrefix(name, "verif_") {
-			continue
-		}
-		path := filepath.Join(dir, name)
+	for _, name := range names {
+		path := filepath.Join(dir, filepath.FromSlash(name))
 		src, err := os.ReadFile(path)
 		if err != nil {
 			return nil, err
